@@ -133,18 +133,20 @@ def main():
     lit_cfgs = ["int", "real", "dur", "time", "text"]
     lit_future = lit_pool.submit(lambda: [vlib.tlc_check("Literal.tla", "MC_Literal_%s.cfg" % g, workers=2, timeout=3600,
                                                          name="c04_MC_Literal_" + g) for g in lit_cfgs])
-    ds_big = gramcheck.derivations(big, cov)
     ds_small = gramcheck.derivations(small, cov)
     inputs = []      # (class label, text)
     k = 1 if tier == "quick" else 4
-    for d in ds_big:
-        for _ in range(k):
-            t, kind = mutate(d["toks"], rng)
-            inputs.append(("mutant:" + kind, gram.spell(t)[0]))
-    # the valid sentences themselves (every stage incl. rendering): all of the shape configurations, a third of the rest
-    for n_, d in enumerate(ds_big):
-        if n_ % 3 == 0 or any(l in ("in:redge", "in:fedge", "progconf:elems", "q:retain", "q:non_retain", "q:constant") for l in d["labs"]):
-            inputs.append(("valid", gram.spell(d["toks"])[0]))
+    n_big = 0
+    for ds_big in gramcheck.batches(big, tier, cov):      # thorough: streamed, only the texts are kept
+        for d in ds_big:
+            for _ in range(k):
+                t, kind = mutate(d["toks"], rng)
+                inputs.append(("mutant:" + kind, gram.spell(t)[0]))
+        # the valid sentences themselves (every stage incl. rendering): all of the shape configurations, a third of the rest
+        for n_, d in enumerate(ds_big):
+            if n_ % 3 == 0 or any(l in ("in:redge", "in:fedge", "progconf:elems", "q:retain", "q:non_retain", "q:constant") for l in d["labs"]):
+                inputs.append(("valid", gram.spell(d["toks"])[0]))
+        n_big += len(ds_big)
     for d in ds_small:
         inputs.append(("valid", gram.spell(d["toks"])[0]))
         for i in range(len(d["toks"])):
